@@ -317,8 +317,8 @@ func vfC07CheckInv(rep vfC07Reporter, a *vfC07Node, x *vfC07Str, inv *vfC07Inv) 
 	if inv.proto != x.s.Protocol() {
 		rep("protocol-disagreement", "the handler's stream reports a different protocol than the dialer's stream", string(x.s.Protocol()), string(inv.proto))
 	}
-	if !vfC07Accepts(inv.h.n, inv.h.k, x.s.Protocol()) {
-		rep("wrong-handler-ran", fmt.Sprintf("the closure registered as %s/%s ran for protocol %q which its matcher does not accept", inv.h.n, inv.h.k, x.s.Protocol()), nil, nil)
+	if inv.proto == x.s.Protocol() && !vfC07Accepts(inv.h.n, inv.h.k, inv.proto) {
+		rep("wrong-handler-ran", fmt.Sprintf("the closure registered as %s/%s ran for protocol %q which its matcher does not accept", inv.h.n, inv.h.k, inv.proto), nil, nil)
 	}
 	if rm := inv.h.removed.Load(); rm != 0 && rm < x.openSeq {
 		rep("removed-handler-ran", fmt.Sprintf("closure #%d (%s/%s) was removed before the open began and was invoked", inv.h.id, inv.h.n, inv.h.k), nil, nil)
@@ -330,28 +330,34 @@ func vfC07CheckInv(rep vfC07Reporter, a *vfC07Node, x *vfC07Str, inv *vfC07Inv) 
 
 // echo round trip: returns ok, the invocation serial that answered
 func vfC07Echo(rep vfC07Reporter, l *vfC07Ledger, x *vfC07Str, nonce string) (bool, int, error) {
-	ok, serial, _, err := vfC07Echo2(rep, l, x, nonce)
+	ok, serial, _, err := vfC07Echo2(rep, l, x, nonce, "")
 	return ok, serial, err
 }
 
 // vfC07Echo2 also tells whether the write alone went through
-func vfC07Echo2(rep vfC07Reporter, l *vfC07Ledger, x *vfC07Str, nonce string) (bool, int, bool, error) {
+// and can put a line in front of the nonce line (tok: application bytes that read as a multistream token)
+func vfC07Echo2(rep vfC07Reporter, l *vfC07Ledger, x *vfC07Str, nonce string, tok string) (bool, int, bool, error) {
 	x.s.SetDeadline(time.Now().Add(30 * time.Second)) // virtual time; never reached when the echo arrives
 	defer x.s.SetDeadline(time.Time{})
-	if _, err := x.s.Write([]byte(nonce + "\n")); err != nil {
+	if _, err := x.s.Write([]byte(tok + nonce + "\n")); err != nil {
 		return false, 0, false, err
 	}
-	line, err := x.rd.ReadString('\n')
-	if err != nil {
-		return false, 0, true, err
-	}
 	var serial, hid int
-	var got string
-	parts := strings.SplitN(strings.TrimSuffix(line, "\n"), ":", 3)
-	if len(parts) == 3 {
-		fmt.Sscan(parts[0], &serial)
-		fmt.Sscan(parts[1], &hid)
-		got = parts[2]
+	var got, line string
+	for range 2 {
+		var err error
+		if line, err = x.rd.ReadString('\n'); err != nil {
+			return false, 0, true, err
+		}
+		parts := strings.SplitN(strings.TrimSuffix(line, "\n"), ":", 3)
+		if len(parts) == 3 {
+			fmt.Sscan(parts[0], &serial)
+			fmt.Sscan(parts[1], &hid)
+			got = parts[2]
+		}
+		if tok == "" || got+"\n" != tok {
+			break // otherwise: the serving handler echoed the token line as data; the nonce line follows
+		}
 	}
 	if got != nonce {
 		rep("echo-mismatch", "the bytes read back are not the echo of the nonce written on this stream", nonce, line)
@@ -610,7 +616,11 @@ func (r *vfC07Run) use(op vfh.Op) {
 	n0 := r.l.nInvs()
 	noCommon := !r.l.commonDuring(x.req, x.openSeq, r.l.seq.Load())
 	nonce := fmt.Sprintf("N%d-%d-%d-%d", vfh.Seed(), r.walk, r.step, i)
-	ok, serial, wrote, err := vfC07Echo2(r.rep, r.l, x, nonce)
+	tok := ""
+	if q := op.S("q"); q != "" {
+		tok = string(rune(len(q)+1)) + q + "\n" // <uvarint length><id><newline>: a well-formed multistream token
+	}
+	ok, serial, wrote, err := vfC07Echo2(r.rep, r.l, x, nonce, tok)
 	synctest.Wait()
 	invs := r.l.invsFrom(n0)
 	r.res.Inc("use_"+op.S("res"), 1)
@@ -621,12 +631,27 @@ func (r *vfC07Run) use(op vfh.Op) {
 		r.res.Inc("use_first_"+op.S("res"), 1)
 	}
 	if !ok {
-		if len(invs) > 0 {
+		stray := op.M("stray")
+		switch {
+		case len(invs) == 1 && tok != "" && string(invs[0].proto) == op.S("q") && string(x.s.Protocol()) != op.S("q"):
+			// B refused the optimistic id, went on negotiating on the application's bytes and started the acceptor of q
+			r.res.Inc("stray_handler_ran", 1)
+			cls := "L2:payload-parsed-as-proposal"
+			if noCommon {
+				cls = "payload-parsed-as-proposal"
+			}
+			r.rep(cls, fmt.Sprintf("the dialer asked for %v only, its optimistic choice %s was refused and its first use failed (%v), yet the listener's handler %s/%s ran on that stream as protocol %s and received the application's bytes", x.req, x.s.Protocol(), err, invs[0].h.n, invs[0].h.k, invs[0].proto), 0, 1)
+			if stray["n"] != invs[0].h.n || stray["k"] != invs[0].h.k {
+				r.rep("L2:stray-handler", "another handler was started by the application's bytes than the model's rule selects", stray, invs[0].h.n+"/"+invs[0].h.k)
+			}
+		case len(invs) > 0:
 			cls := "L2:handler-ran-on-failed-use"
 			if noCommon {
 				cls = "handler-ran-without-common-protocol"
 			}
 			r.rep(cls, fmt.Sprintf("first use failed (%v) but %d handler(s) ran", err, len(invs)), 0, len(invs))
+		case stray["n"] != "":
+			r.rep("L2:stray-handler", "the model's rule starts a handler on the application's bytes after the refusal; none ran", stray, nil)
 		}
 		if op.S("res") != "fail" {
 			r.rep("L2:use-result", "the round trip failed where the model's rule succeeds: "+err.Error(), "ok", "fail")
